@@ -46,12 +46,14 @@ def _vols_for(M):
 
 
 def enumerate_cases(tier):
+    nkey = 0
     for M in MS:
         yield {"kind": "grid", "M": M, "int_M": M in INT_MS}
     for M in (1, 7, 50, 950, 0.5, 33.3):
         for dev in ("evo", "fluent"):
             for rel in ("above", "equal", "below", "far"):
-                yield {"kind": "nosplit", "M": M, "device": dev, "rel": rel}
+                nkey += 1
+                yield {"kind": "nosplit", "M": M, "device": dev, "rel": rel, "key": nkey}
     for M in (950, 100, 33.3, 1):
         for vol in (1, 0.5, 10, 33.3, 100, 400, 475, 476, 950):
             for md in (1, 2, 3, 6, 12, 100):
@@ -184,7 +186,7 @@ def _wl(device, key=1, **kw):
     from vf.lab import evo_class
 
     cls = evo_class(key) if device == "evo" else robotools.FluentWorklist
-    if key % 3 == 0:
+    if (key // 4) % 3 == 0:
         wl = copy.deepcopy(cls(max_volume=kw.get("max_volume", 950) * 3 + 1, auto_split=not kw.get("auto_split", True)))
         wl.max_volume = kw.get("max_volume", 950)
         wl.auto_split = kw.get("auto_split", True)
@@ -217,7 +219,7 @@ def check_case(case) -> Obs:
         M, dev, rel = case["M"], case["device"], case["rel"]
         v = {"above": round(M + 0.01, 2), "equal": M, "below": max(0.01, round(M - 0.01, 2)), "far": M * 7}[rel]
         S, D = _mk_lab(False)
-        wl = _wl(dev, key=len(repr(case)), max_volume=M, auto_split=False)
+        wl = _wl(dev, key=case.get("key", len(repr(case))), max_volume=M, auto_split=False)
         obs.units = 1
         try:
             wl.transfer(S, ["A01", "B01"], D, ["A01", "B01"], [min(1, M), v])
@@ -236,7 +238,7 @@ def check_case(case) -> Obs:
         for auto in (False, True):
             T = robotools.Trough("T", 8, 1, min_volume=0, max_volume=1e9, initial_volumes=5e8)
             D2 = robotools.Labware("D", 8, 2, min_volume=0, max_volume=1e9, initial_volumes=0)
-            wl2 = _wl(dev, key=len(repr(case)) + auto, max_volume=M, auto_split=auto)
+            wl2 = _wl(dev, key=case.get("key", len(repr(case))) + auto, max_volume=M, auto_split=auto)
             obs.units += 1
             try:
                 wl2.distribute(T, 0, D2, ["A01", "B01", "C01"], volume=v, multi_disp=4)
@@ -278,7 +280,7 @@ def check_case(case) -> Obs:
     # transfer
     M, dev = case["M"], case["device"]
     S, D = _mk_lab(case["src_trough"])
-    wl = _wl(dev, key=len(repr(case)), max_volume=M, auto_split=True)
+    wl = _wl(dev, key=case.get("key", len(repr(case))), max_volume=M, auto_split=True)
     rows = "ABCDEFGH"
     sw = [f"{rows[i]}01" for i in case["src"]]
     dw = [f"{rows[i % 8]}{i // 8 + 1:02d}" for i in case["dst"]]
